@@ -294,6 +294,13 @@ class Ctx:
     def run_model(self, requests):
         if not requests:
             return []
+        exe = os.path.join(MODEL_DIR, self.model_target())
+        if not os.path.exists(exe):
+            # the model did not build (e.g. a Gen table could not be extracted): a broken obligation, not a crash
+            msg = f"model executable {self.model_target()} is not built (see the lake errors above)"
+            if msg not in self.broken:
+                self.broken.append(msg)
+            return ["model-unavailable"] * len(requests)
         rc, out = sh([os.path.join(MODEL_DIR, self.model_target())], input_="\n".join(requests) + "\n", timeout=3000)
         lines = out.split("\n")
         if lines and lines[-1] == "":
@@ -321,7 +328,9 @@ class Ctx:
             if orc.startswith("FAIL"):
                 self.oracle_failures.append((req, obs, orc))
             if compare_model:
-                if mobs is not None and mobs.startswith("unsupported"):
+                if mobs == "model-unavailable":
+                    pass
+                elif mobs is not None and mobs.startswith("unsupported"):
                     self.unsupported += 1
                 elif mobs != obs:
                     self.disagreements.append((req, obs, mobs))
